@@ -427,8 +427,10 @@ class Item:
     def d_R4(self, old, new, rule="R4"):
         # `$1`..`$9` in the target stand for a place expression (identifiers joined by `.`); the same placeholder in
         # the replacement is filled with what was matched (the shim is applied to whatever vector the code names)
-        toks = re.findall(r"\$\d|\w+|[^\w\s]", old)
-        pat = r"\s*".join((r"(?P<v%s>[A-Za-z_]\w*(?:\(\s*\))?(?:\[[^\]]*\])?(?:\s*\.\s*[A-Za-z_]\w*(?:\(\s*\))?(?:\[[^\]]*\])?)*?)" % t[1]) if re.match(r"\$\d$", t) else re.escape(t) for t in toks)
+        # `$S1`..`$S9` stand for a plain string literal (no `{` placeholders): the shim gets whatever text the code writes
+        toks = re.findall(r"\$S\d|\$\d|\w+|[^\w\s]", old)
+        pat = r"\s*".join((r"(?P<v%s>[A-Za-z_]\w*(?:\(\s*\))?(?:\[[^\]]*\])?(?:\s*\.\s*[A-Za-z_]\w*(?:\(\s*\))?(?:\[[^\]]*\])?)*?)" % t[1]) if re.match(r"\$\d$", t)
+                           else (r'(?P<s%s>"(?:[^"\\{]|\\.)*")' % t[2]) if re.match(r"\$S\d$", t) else re.escape(t) for t in toks)
         if re.match(r"\w", old):
             pat = r"\b" + pat
         if re.search(r"\w$", old):
@@ -441,7 +443,10 @@ class Item:
         for h in hits:
             rep = new
             for gk, gv in h.groupdict().items():
-                rep = rep.replace("$" + gk[1:], re.sub(r"\s+", "", gv))
+                if gk.startswith("s"):
+                    rep = rep.replace("$S" + gk[1:], gv)
+                else:
+                    rep = rep.replace("$" + gk[1:], re.sub(r"\s+", "", gv))
             self.rewrite(h.start(), h.end(), rep, rule)
 
     def d_R5(self):
